@@ -866,6 +866,26 @@ fn sc_bech32_text(ctx: &mut Ctx) {
         mk("ed25519_sig", &[1u8; 64]),
         "é1qqqqqq".into(),
     ];
+    // valid checksum over 5-bit groups that do NOT regroup into whole bytes (too many padding
+    // bits, or non-zero padding): every sequence of <= 3 groups over {0, 1, 16, 31}, and the
+    // neighbours of the group counts of 28- and 32-byte payloads
+    let mut texts = texts;
+    let mk5 = |hrp: &str, groups: &[u8]| bech32::encode(hrp, groups.iter().map(|g| bech32::u5::try_from_u8(*g).unwrap()).collect::<Vec<_>>()).unwrap();
+    for hrp in ["x", "addr", "drep", "ed25519_pk", "xpub", "ed25519_sig"] {
+        for n in 0..=3usize {
+            for code in 0..4usize.pow(n as u32) {
+                let groups: Vec<u8> = (0..n).map(|k| [0u8, 1, 16, 31][(code / 4usize.pow(k as u32)) % 4]).collect();
+                texts.push(mk5(hrp, &groups));
+            }
+        }
+        for n in [44usize, 45, 46, 51, 52, 53] {
+            texts.push(mk5(hrp, &vec![0u8; n]));
+            texts.push(mk5(hrp, &vec![31u8; n]));
+            let mut g = vec![0u8; n];
+            g[n - 1] = 1;
+            texts.push(mk5(hrp, &g));
+        }
+    }
     let parsers: Vec<(&str, fn(&str) -> bool)> = vec![
         ("Address::from_bech32", |s| Address::from_bech32(s).is_ok()),
         ("DRep::from_bech32", |s| DRep::from_bech32(s).is_ok()),
